@@ -13,6 +13,7 @@ import (
 	"errors"
 	"fmt"
 	"math/rand"
+	"strings"
 	"sync"
 	"time"
 
@@ -55,6 +56,8 @@ type EngineCfg struct {
 	OvKey   []int // run, node, visit, k  (override position, empty: none)
 	OvPhase string
 	OvKind  string // "err" | "cancel"
+	Dyn     bool   // dynamic wiring: only the first Pre[run] Connect calls are made before the run
+	Pre     []int
 }
 
 func parseEngineCfg(m map[string]any) EngineCfg {
@@ -101,6 +104,10 @@ func parseEngineCfg(m map[string]any) EngineCfg {
 	}
 	c.OvPhase = asStr(m["ovphase"])
 	c.OvKind = asStr(m["ovkind"])
+	c.Dyn = asBool(m["dyn"])
+	for _, x := range asList(m["pre"]) {
+		c.Pre = append(c.Pre, asInt(x))
+	}
 	return c
 }
 
@@ -144,7 +151,15 @@ func (c EngineCfg) toJSON() map[string]any {
 			flowretry = true
 		}
 	}
-	return map[string]any{"flowretry": flowretry, "zerobudget": c.zeroBudget(), "nodes": nodes, "top": c.Top, "conns": conns, "ctx0": ctx0, "runs": c.Runs, "acts": acts,
+	pre := []any{}
+	for r := range c.Conns {
+		if r < len(c.Pre) {
+			pre = append(pre, c.Pre[r])
+		} else {
+			pre = append(pre, len(c.Conns[r]))
+		}
+	}
+	return map[string]any{"dyn": c.Dyn, "pre": pre, "flowretry": flowretry, "zerobudget": c.zeroBudget(), "nodes": nodes, "top": c.Top, "conns": conns, "ctx0": ctx0, "runs": c.Runs, "acts": acts,
 		"outs": outs, "cancel": c.Cancel, "nilstart": c.Nilstart, "ctxkind": c.CtxKind, "variant": c.Variant,
 		"genseed": c.GenSeed, "genmode": c.GenMode, "ovkey": ov, "ovphase": c.OvPhase, "ovkind": c.OvKind}
 }
@@ -210,6 +225,7 @@ type Outcome struct {
 	Nil    bool
 	Cancel bool
 	Act    int
+	Conns  int // post: number of pending Connect calls the callback makes before it returns (dynamic wiring)
 }
 
 type skey struct {
@@ -252,11 +268,19 @@ func scriptFromHistory(h []any) *mapScript {
 	s := &mapScript{m: map[skey]Outcome{}}
 	run := 0
 	visits := map[int]int{}
+	inRun, conns := false, 0
 	for _, ev := range h {
 		e := asMap(ev)
 		node := asInt(e["node"])
 		switch asStr(e["ev"]) {
+		case "connect":
+			if inRun {
+				conns++ // made from inside the post callback that follows
+			}
+		case "runret", "panic":
+			inRun = false
 		case "runcall":
+			inRun, conns = true, 0
 			run++
 			visits = map[int]int{}
 		case "prep":
@@ -267,7 +291,8 @@ func scriptFromHistory(h []any) *mapScript {
 		case "fb":
 			s.m[skey{run, node, visits[node], "fb", 0}] = Outcome{Out: asStr(e["out"]), Nil: asStr(e["out"]) == "ok" && asInt(e["val"]) == 0, Cancel: asBool(e["cancel"])}
 		case "post":
-			s.m[skey{run, node, visits[node], "post", 0}] = Outcome{Out: asStr(e["out"]), Act: asInt(e["act"]), Cancel: asBool(e["cancel"])}
+			s.m[skey{run, node, visits[node], "post", 0}] = Outcome{Out: asStr(e["out"]), Act: asInt(e["act"]), Cancel: asBool(e["cancel"]), Conns: conns}
+			conns = 0
 		}
 	}
 	return s
@@ -326,8 +351,12 @@ type scnRun struct {
 	maxCb    int
 	over     bool
 	mu       sync.Mutex
-	flowRun  bool // call the convenience method (*Flow).Run instead of flyt.Run
-	visitLog bool // append node ids to a list in the store (C10 differential)
+	flowRun  bool      // call the convenience method (*Flow).Run instead of flyt.Run
+	nest     *nestSpec // a run of the same node object is nested into this exec callback (re-entrancy differential)
+	nestDone bool
+	nestBad  string
+	pending  []ConnOp // Connect calls of this run that are still to be made from inside post callbacks
+	visitLog bool     // append node ids to a list in the store (C10 differential)
 }
 
 // ctxAlive: every context a callback of this run was given so far is still alive, unless the run's own context is
@@ -382,8 +411,46 @@ type leafCore struct {
 	id int
 }
 
+// ---- re-entrancy: a nested run of the same node object -----------------------------------------------
+//
+// One exec callback of the scenario runs the very node object it belongs to once more - on a store of its own, under a
+// context marked as nested - before it produces its own outcome (a recursive walk does that).  The nested run has its
+// own prep value, exec result and post; nothing of it may show in the surrounding run: the scenario's events must be the
+// same as without the nested run.
+
+type nestSpec struct{ Node, Visit, K int }
+type nestedKey struct{}
+
+const nestPrepTok, nestExecTok = 900001, 900002
+
+func isNested(ctx context.Context) bool { return ctx != nil && ctx.Value(nestedKey{}) != nil }
+
+func (s *scnRun) nestedBad(format string, a ...any) {
+	if s.nestBad == "" {
+		s.nestBad = fmt.Sprintf(format, a...)
+	}
+}
+
+func (s *scnRun) runNested(ctx context.Context, id int) {
+	defer func() {
+		if p := recover(); p != nil {
+			s.nestedBad("the nested run panicked: %v", p)
+		}
+	}()
+	act, err := flyt.Run(context.WithValue(ctx, nestedKey{}, id), s.nodes[id], flyt.NewSharedStore())
+	if err != nil || act != flyt.DefaultAction {
+		s.nestedBad("the nested run returned (%q, %v)", act, err)
+	}
+}
+
 func (c *leafCore) prep(ctx context.Context, shared *flyt.SharedStore) (any, error) {
 	s := c.s
+	if isNested(ctx) {
+		if shared == s.store {
+			s.nestedBad("the nested run was handed the outer store")
+		}
+		return s.reg.Payload(nestPrepTok), nil
+	}
 	cok := s.ctxAlive(ctx)
 	s.visits[c.id]++
 	s.att[c.id] = 0
@@ -404,6 +471,11 @@ func (c *leafCore) prep(ctx context.Context, shared *flyt.SharedStore) (any, err
 		l, _ := cur.([]int)
 		shared.Set("visits", append(append([]int{}, l...), c.id))
 	}
+	if o.Out == "panic" {
+		ev["cancel"] = false
+		s.log(ev)
+		panic(scriptedPanic(t))
+	}
 	if o.Cancel {
 		s.cancel()
 	}
@@ -422,12 +494,43 @@ func (c *leafCore) prep(ctx context.Context, shared *flyt.SharedStore) (any, err
 	return nil, s.reg.Err(t)
 }
 
+// a scripted callback panic: with a string for even tokens (as the library's own Must* helpers do), with an error
+// value for odd ones (as runtime panics are)
+type scriptedPanicErr struct{ tok int }
+
+func (e scriptedPanicErr) Error() string { return fmt.Sprintf("scripted panic %d", e.tok) }
+func scriptedPanic(t int) any {
+	if t%2 == 0 {
+		return fmt.Sprintf("scripted panic %d", t)
+	}
+	return scriptedPanicErr{t}
+}
+func isScriptedPanic(p any) bool {
+	switch x := p.(type) {
+	case string:
+		return strings.HasPrefix(x, "scripted panic ")
+	case scriptedPanicErr:
+		return true
+	}
+	return false
+}
+
 // exec returns (value, errorResultError, goError)
 func (c *leafCore) exec(ctx context.Context, arg Obs) (any, error, error) {
 	s := c.s
+	if isNested(ctx) {
+		if arg.Tok != nestPrepTok || !arg.Same {
+			s.nestedBad("the nested exec received token %d instead of its own prep value", arg.Tok)
+		}
+		return s.reg.Payload(nestExecTok), nil, nil
+	}
 	cok := s.ctxAlive(ctx)
 	s.att[c.id]++
 	k := s.att[c.id]
+	if n := s.nest; n != nil && !s.nestDone && s.run == 1 && n.Node == c.id && n.Visit == s.visits[c.id] && n.K == k {
+		s.nestDone = true
+		s.runNested(ctx, c.id)
+	}
 	o := s.script.Get(skey{s.run, c.id, s.visits[c.id], "exec", k})
 	s.overrun()
 	t := s.nextTok()
@@ -436,6 +539,11 @@ func (c *leafCore) exec(ctx context.Context, arg Obs) (any, error, error) {
 		aw = "eres"
 	}
 	ev := Event{"ev": "exec", "node": c.id, "k": k, "arg": arg.Tok, "aw": aw, "aid": arg.Same, "cok": cok, "out": o.Out, "val": 0, "err": 0, "cancel": o.Cancel}
+	if o.Out == "panic" {
+		ev["cancel"] = false
+		s.log(ev)
+		panic(scriptedPanic(t))
+	}
 	if o.Cancel {
 		s.cancel()
 	}
@@ -499,6 +607,12 @@ func (c *leafCore) fallback(prepResult any, err error) (any, error) {
 
 func (c *leafCore) post(ctx context.Context, shared *flyt.SharedStore, p, x Obs) (flyt.Action, error) {
 	s := c.s
+	if isNested(ctx) {
+		if p.Tok != nestPrepTok || x.Tok != nestExecTok {
+			s.nestedBad("the nested post received prep %d / exec %d instead of its own values", p.Tok, x.Tok)
+		}
+		return flyt.DefaultAction, nil
+	}
 	cok := s.ctxAlive(ctx)
 	o := s.script.Get(skey{s.run, c.id, s.visits[c.id], "post", 0})
 	if s.overrun() {
@@ -508,9 +622,19 @@ func (c *leafCore) post(ctx context.Context, shared *flyt.SharedStore, p, x Obs)
 	if shared != nil {
 		shared.Set("last", t) // data for the nodes that follow
 	}
+	for i := 0; i < o.Conns && len(s.pending) > 0 && o.Out != "panic"; i++ {
+		// dynamic wiring: this node connects nodes of the running flow
+		s.doConnect(s.pending[0])
+		s.pending = s.pending[1:]
+	}
 	ev := Event{"ev": "post", "node": c.id, "sok": shared == s.store, "cok": cok, "wrote": t, "prep": p.Tok, "pid": p.Same && p.Wrap == "raw" && !p.IsErr,
 		"exec": x.Tok, "eid": x.Same, "ew": x.Wrap, "eerr": x.IsErr, "eerrtok": x.ErrTok,
 		"out": o.Out, "act": 0, "err": 0, "cancel": o.Cancel}
+	if o.Out == "panic" {
+		ev["cancel"] = false
+		s.log(ev)
+		panic(scriptedPanic(t))
+	}
 	if o.Cancel {
 		s.cancel()
 	}
@@ -886,15 +1010,75 @@ func flowRunAgrees(cfg EngineCfg, mk func() Script, ref []Event) bool {
 	return true
 }
 
+func (s *scnRun) doConnect(op ConnOp) {
+	f, ok := s.nodes[op.Flow].(*flyt.Flow)
+	if !ok {
+		fatal("connect on non-flow node %d", op.Flow)
+	}
+	f.Connect(s.nodes[op.From], actName(op.Act), s.node(op.To, 0))
+	s.log(Event{"ev": "connect", "flow": op.Flow, "from": op.From, "act": op.Act, "to": op.To})
+}
+
+// nestedRunInvisible re-executes the scenario with a run of the same node object nested into one of its exec callbacks
+// (a failing attempt of the first run if there is one) and compares the scenario's events with the reference.
+func nestedRunInvisible(cfg EngineCfg, mk func() Script, ref []Event) bool {
+	var cand, failing []nestSpec
+	visits := map[int]int{}
+	runs := 0
+	for _, e := range ref {
+		switch e["ev"] {
+		case "runcall":
+			runs++
+		case "prep":
+			visits[e["node"].(int)]++
+		case "exec":
+			id := e["node"].(int)
+			if runs != 1 || id < 1 || id > len(cfg.Nodes) || cfg.Nodes[id-1].Kind != "leaf" {
+				continue
+			}
+			n := nestSpec{id, visits[id], e["k"].(int)}
+			cand = append(cand, n)
+			if e["out"] == "err" {
+				failing = append(failing, n)
+			}
+		}
+	}
+	if len(cand) == 0 {
+		return true
+	}
+	pick := cand[len(ref)%len(cand)]
+	if len(failing) > 0 {
+		pick = failing[len(ref)%len(failing)]
+	}
+	evs, s := runEngineScenarioNest(cfg, mk(), &pick)
+	if s.nestBad != "" || !s.nestDone || len(evs) != len(ref) {
+		return false
+	}
+	for i := range evs {
+		if fmt.Sprint(evs[i]) != fmt.Sprint(ref[i]) {
+			return false
+		}
+	}
+	return true
+}
+
+func runEngineScenarioNest(cfg EngineCfg, script Script, nest *nestSpec) ([]Event, *scnRun) {
+	return runEngineScenarioFull(cfg, script, false, nest)
+}
+
 func runEngineScenario(cfg EngineCfg, script Script) ([]Event, *scnRun) {
 	return runEngineScenarioOpt(cfg, script, false)
 }
 
 func runEngineScenarioOpt(cfg EngineCfg, script Script, viaFlowRun bool) ([]Event, *scnRun) {
+	return runEngineScenarioFull(cfg, script, viaFlowRun, nil)
+}
+
+func runEngineScenarioFull(cfg EngineCfg, script Script, viaFlowRun bool, nest *nestSpec) ([]Event, *scnRun) {
 	assignKinds(&cfg)
 	reg0 := NewRegistry()
 	reg0.RunCtxKind = cfg.CtxKind
-	s := &scnRun{flowRun: viaFlowRun, cfg: cfg, reg: reg0, script: script, store: flyt.NewSharedStore(), tok: 1,
+	s := &scnRun{nest: nest, flowRun: viaFlowRun, cfg: cfg, reg: reg0, script: script, store: flyt.NewSharedStore(), tok: 1,
 		nodes: map[int]flyt.Node{}, maxCb: 400}
 	for id := range cfg.Nodes {
 		s.node(id+1, 0)
@@ -904,14 +1088,15 @@ func runEngineScenarioOpt(cfg EngineCfg, script Script, viaFlowRun bool) ([]Even
 		s.visits = map[int]int{}
 		s.att = map[int]int{}
 		if r-1 < len(cfg.Conns) {
-			for _, op := range cfg.Conns[r-1] {
-				f, ok := s.nodes[op.Flow].(*flyt.Flow)
-				if !ok {
-					fatal("connect on non-flow node %d", op.Flow)
-				}
-				f.Connect(s.nodes[op.From], actName(op.Act), s.node(op.To, 0))
-				s.log(Event{"ev": "connect", "flow": op.Flow, "from": op.From, "act": op.Act, "to": op.To})
+			ops := cfg.Conns[r-1]
+			pre := len(ops)
+			if cfg.Dyn && r-1 < len(cfg.Pre) && cfg.Pre[r-1] < pre {
+				pre = cfg.Pre[r-1] // the others are made from inside post callbacks while the flow runs
 			}
+			for _, op := range ops[:pre] {
+				s.doConnect(op)
+			}
+			s.pending = append([]ConnOp{}, ops[pre:]...)
 		}
 		var ctx context.Context
 		switch cfg.CtxKind {
@@ -942,7 +1127,11 @@ func runEngineScenarioOpt(cfg EngineCfg, script Script, viaFlowRun bool) ([]Even
 			defer func() {
 				if p := recover(); p != nil {
 					panicked = true
-					s.log(Event{"ev": "panic", "msg": fmt.Sprint(p)})
+					if isScriptedPanic(p) {
+						s.log(Event{"ev": "panic"}) // the callback's own panic arrived at the caller of Run, as it must
+					} else {
+						s.log(Event{"ev": "panic", "msg": fmt.Sprint(p)})
+					}
 				}
 			}()
 			if f, isFlow := s.nodes[cfg.Top].(*flyt.Flow); isFlow && s.flowRun {
